@@ -6,6 +6,7 @@ import Ibx.Model.Smtp
   mode "smtp": one whole connection per line.
     run naming=.. da=.. acc=.. rej=.. ds=.. sto=.. dis=.. ro=.. maxrcpt=N maxbytes=N cap=N domain=<hex> rhost=<hex> ts=<hex>
         ip=<tbl> re=<tbl> args=<tbl> hdr=<tbl> hookmail=<tbl> hookrcpt=<tbl> hookstored=<tbl> fail=<hexlist> budget=<n|-> inp=<hex>
+        [rend=<eof|timeout|neterr>] [stall=<n>]      (C03End: how the input ends; a stall >= Timeout after n bytes; adds `bye=<hex|->`)
   answer: the reply / store events in order, `end=<why> st=<state>`, and `dump=` the mailboxes after folding the stored
   copies into Spec.Store (cap applied).  Oracle tables: entries separated by ';', fields by '~'.
 -/
@@ -131,6 +132,14 @@ def showEv : Ev → String
   | .stored s => s!"S{Bytes.toHex s.mailbox}"
   | .deliverFailed => "F"
 
+def parseReadEnd (s : String) : Option ReadEnd :=
+  match s with | "eof" => some .eof | "timeout" => some .timeout | "neterr" => some .neterr | _ => none
+
+/-- the exact last reply line, in hex (`-` = none) -/
+def showBye : Option Bye → String
+  | none => "-"
+  | some b => Bytes.toHex (byeText b)
+
 def foldStore (cap : Nat) (evs : List Ev) : Spec.Store.Store :=
   evs.foldl (fun st ev =>
     match ev with
@@ -154,8 +163,19 @@ def step (_ : Unit) (toks : List String) : Unit × String :=
       | some m => ((), m)
       | none =>
         let budget := (kv.get? "budget") >>= String.toNat?
-        let (evs, s, en) := run e budget inp
-        ((), " ".intercalate (evs.map showEv) ++ s!" end={showEnd en} st={showSt s.st} hooks={hookTexts evs} dump={dump (foldStore cap evs)}")
+        match kv.get? "rend", kv.get? "stall" with
+        | none, none =>
+          let (evs, s, en) := run e budget inp
+          ((), " ".intercalate (evs.map showEv) ++ s!" end={showEnd en} st={showSt s.st} hooks={hookTexts evs} dump={dump (foldStore cap evs)}")
+        | rend, stall =>
+          -- the input ends by `rend` (eof | timeout | neterr); `stall=<n>`: the client is silent for >= Timeout after n bytes
+          match parseReadEnd (rend.getD "eof") with
+          | none => ((), "bad-op")
+          | some k =>
+            let r := match stall >>= String.toNat? with
+              | some n => runStall e budget (inp.take n) (inp.drop n) k
+              | none => runEnd e budget inp k
+            ((), " ".intercalate (r.evs.map showEv) ++ s!" end={showEnd r.how} st={showSt r.sess.st} bye={showBye r.bye} hooks={hookTexts r.evs} dump={dump (foldStore cap r.evs)}")
     | _, _, _ => ((), "bad-op")
   | _ => ((), "bad-op")
 
